@@ -199,6 +199,10 @@ func (w *World) fetch(nd *Node, hash hotstuff.Hash) (*hotstuff.Block, bool) {
 	}
 	w.probe("fetch")
 	nd.sender.fetchCtr++
+	if w.plan.knob("ffOnce", 0) == int(nd.id) && nd.sender.fetchCtr == 1 {
+		w.fault("fetch-timeout")
+		return nil, false
+	}
 	if !w.syncPhaseFor(nd) && w.plan.FetchFail > 0 &&
 		unit(mix(w.plan.Inner, 0x66657463, uint64(nd.slot), nd.sender.fetchCtr)) < w.plan.FetchFail {
 		w.fault("fetch-timeout")
